@@ -1,3 +1,5 @@
+//go:build amd64 && !verif
+
 // Copyright 2018 Google LLC
 //
 // Licensed under the Apache License, Version 2.0 (the "License");
